@@ -842,6 +842,16 @@ def _loops_to_comprehensions(fn: ast.AST) -> int:
         i = 0
         while i < len(blk):
             st = blk[i]
+            # `x = [fresh list]; x.sort(..)`  ==  `x = sorted([fresh list], ..)`   (likewise `.reverse()` -> list(reversed(..)))
+            if isinstance(st, ast.Expr) and isinstance(st.value, ast.Call) and isinstance(st.value.func, ast.Attribute) and st.value.func.attr == "sort" and isinstance(st.value.func.value, ast.Name) and not st.value.args and i > 0:
+                nm = st.value.func.value.id
+                prev = blk[i - 1]
+                if isinstance(prev, ast.Assign) and len(prev.targets) == 1 and isinstance(prev.targets[0], ast.Name) and prev.targets[0].id == nm and (isinstance(prev.value, (ast.ListComp, ast.List)) or (isinstance(prev.value, ast.Call) and isinstance(prev.value.func, ast.Name) and prev.value.func.id in ("list", "sorted"))) and not any(_uses(k.value, nm) for k in st.value.keywords):
+                    prev.value = _loc(ast.Call(ast.Name("sorted", ast.Load()), [prev.value], st.value.keywords), prev.value)
+                    ast.fix_missing_locations(prev)
+                    del blk[i]
+                    changed += 1
+                    continue
             if isinstance(st, ast.For) and not st.orelse and i > 0:
                 r = _accumulation(st)
                 if r is not None:
@@ -1172,7 +1182,17 @@ def _inline_generator_loop(loop: ast.For, hdef: ast.FunctionDef, is_method: bool
     flow that would have to resume or abandon the generator (a `return` in B leaves the function either way)."""
     body = [copy.deepcopy(s) for s in hdef.body if not _docstring(s)]
     yields = [n for s in body for n in ast.walk(s) if isinstance(n, (ast.Yield, ast.YieldFrom))]
-    if not yields or any(isinstance(y, ast.YieldFrom) for y in yields):
+    if not yields:
+        return None
+    # `yield from X` as a statement  ==  `for __y in X: yield __y`
+    class _YF(ast.NodeTransformer):
+        def visit_Expr(self, node):
+            if isinstance(node.value, ast.YieldFrom):
+                return _loc(ast.For(ast.Name("__y", ast.Store()), node.value.value, [ast.Expr(ast.Yield(ast.Name("__y", ast.Load())))], [], None), node)
+            return node
+    body = [ast.fix_missing_locations(_YF().visit(s)) for s in body]
+    yields = [n for s in body for n in ast.walk(s) if isinstance(n, (ast.Yield, ast.YieldFrom))]
+    if any(isinstance(y, ast.YieldFrom) for y in yields):
         return None
     stmts_with_yield = [n for s in body for n in ast.walk(s) if isinstance(n, ast.Expr) and isinstance(n.value, ast.Yield)]
     if len(stmts_with_yield) != len(yields):
@@ -1219,6 +1239,10 @@ def _inline_generator_loop(loop: ast.For, hdef: ast.FunctionDef, is_method: bool
     for s_ in body:
         r_ = _Y().visit(s_)
         new.extend(r_ if isinstance(r_, list) else [r_])
+    for n_ in [x for s_ in new for x in ast.walk(s_)]:
+        if isinstance(n_, ast.For) and isinstance(n_.target, ast.Name) and n_.target.id == "__y" and n_.body and isinstance(n_.body[0], ast.Assign) and ast.unparse(n_.body[0].value) == "__y":
+            n_.target = n_.body[0].targets[0]
+            n_.body = n_.body[1:] or [ast.Pass()]
     # a bare `return` in the generator ends the iteration: only allowed in tail position, where it is dropped
     for k, s_ in enumerate(new):
         for n in ast.walk(s_):
